@@ -53,7 +53,7 @@ MC_FAMS = {
     ("C04", "thorough"): [("MCEngF2", 2, 3, {}, False), ("MCEngF3", 3, 1, {}, False), ("MCEngFW2", 2, 1, {}, False),
                           ("MCEngF3L", 3, 1, {}, False)],
     ("C05", "quick"): [("MCEngL1", 3, 0, {}, False), ("MCEngL2", 3, 0, {}, False), ("MCEngP", 2, 0, {}, False), ("MCEngM", 2, 0, {}, False)],
-    ("C05", "thorough"): [("MCEngL1", 3, 0, {}, False), ("MCEngL2", 3, 0, {}, False), ("MCEngA", 3, 0, {}, False), ("MCEngP", 3, 0, {}, False), ("MCEngM", 3, 0, {}, False),
+    ("C05", "thorough"): [("MCEngL1", 3, 0, {}, False), ("MCEngL2", 3, 0, {}, False), ("MCEngA", 3, 0, {}, False), ("MCEngP", 3, 0, {}, False), ("MCEngM", 2, 0, {}, False),
                           ("MCEngS", 4, 0, {}, False)],
     ("C09", "quick"): [("MCEngF2", 2, 0, {}, False), ("MCEngM", 2, 0, {}, False)],
     ("C09", "thorough"): [("MCEngF2", 2, 1, {}, False), ("MCEngF3", 3, 0, {}, False), ("MCEngF3L", 3, 0, {}, False),
